@@ -22,6 +22,8 @@ import Proofs.GoTieScryptCtor
 import Proofs.GoTieMarshal
 import Proofs.GoTieSmall
 import Proofs.GoTieAead
+import Proofs.GoTieWitnessA
+import Proofs.GoTieWitnessB
 namespace AgeModel
 namespace Tie.C05
 open SpecConsts
@@ -280,6 +282,19 @@ theorem aeadEncrypt_tie {α : Type} {P : Prims} (E : GoTie.WrapAeadEnv α P) (k 
 theorem ssh_aeadEncrypt_tie {α : Type} {P : Prims} (E : GoTie.WrapAeadEnv α P) (k pt : Bytes) (hk : k.length = 32) :
     Extracted.agessh_aeadEncrypt E.New E.seal_ k pt = .ok (P.wrapSeal k pt, none) :=
   GoTie.ssh_aeadEncrypt_tie E k pt hk
+
+/-- **the assumption structures this file's theorems take are satisfiable** (for a lawful toy primitive suite
+    with the 16-byte tag, where they mention primitives): none of the theorems above is vacuous. The instances are in
+    `Proofs/GoTieWitnessA.lean` / `GoTieWitnessB.lean`. -/
+theorem assumptions_satisfiable :
+    Prims.toy16.Correct ∧ Prims.toy16.aead.NonceSep ∧ Prims.toy16.aead.T = 16 ∧
+    Nonempty (GoTie.MacEnv Prims.toy16 Bytes (Bytes × Bytes)) ∧
+    Nonempty (GoTie.NativeEnv Prims.toy16 Bytes) ∧
+    Nonempty (GoTie.RsaEnv Prims.toy16 Bytes Bytes Bytes) ∧
+    Nonempty (GoTie.SshEnv Prims.toy16 Bytes Bytes) ∧
+    Nonempty (GoTie.WrapAeadEnv Bytes Prims.toy16) ∧
+    Nonempty (GoTie.MarshalEnv Bytes Unit Bytes) :=
+  ⟨Prims.toy16_correct, AEAD.toy16_nonceSep, rfl, ⟨GoTie.MacEnv.witness⟩, ⟨GoTie.NativeEnv.witness⟩, ⟨GoTie.RsaEnv.witness⟩, ⟨GoTie.SshEnv.witness⟩, ⟨GoTie.WrapAeadEnv.witness⟩, ⟨GoTie.MarshalEnv.witness⟩⟩
 
 end Tie.C05
 end AgeModel
